@@ -492,6 +492,11 @@ class Extractor:
         # canonical direction: lt / le only
         if k in ('gt', 'ge'):
             a, b, k = b, a, FLIP[k]
+        # 0 < len(x) / 1 <= len(x): "x is not empty" is x ; len(x) < 1 / len(x) <= 0: not x
+        if b[0] == 'len' and ((k == 'lt' and _num(a) == 0) or (k == 'le' and _num(a) == 1)):
+            return self.truth(b[1])
+        if a[0] == 'len' and ((k == 'lt' and _num(b) == 1) or (k == 'le' and _num(b) == 0)):
+            return mk_not(self.truth(a[1]))
         # integers: a <= n  ==  a < n+1 (canonical: lt with the larger bound)
         nb = _num(b)
         if k == 'le' and nb is not None and b[1] == 'int' and a[0] == 'len':
@@ -505,6 +510,10 @@ class Extractor:
     def eq(self, a, b):
         if a == b:
             return TRUE
+        # len(x) == 0  is  "x is empty"  is  not x
+        for x, y in ((a, b), (b, a)):
+            if x[0] == 'len' and _num(y) == 0:
+                return mk_not(self.truth(x[1]))
         for x, y in ((a, b), (b, a)):
             if x[0] == 'first' and y == NONE:
                 return mk_not(mk_any(x[1], x[2]))
